@@ -4,7 +4,7 @@
   Model: `Jence.scratchKey` (`Game::make_zobrist_hash`), `Jence.nullMoveOf` (the null-move block of `negamax`).
 -/
 import Jence.Model.Search
-import Jence.Lemmas.History
+import Jence.Lemmas.NoKing
 namespace Jence.Props.C04
 open Jence
 
@@ -51,11 +51,12 @@ theorem made_move_key (g g' : Game) (b : Board) (m : Move) (all : Bool) (wf : Wf
     g'.key = scratchKey g' :=
   makeCore_wf_key g g' m b wf (gen_fits wf nk all m hm) hkey hmk
 
-/-- **T4.1, histories** After any sequence of generated moves from a consistent position whose key is right, the
-    maintained key is the from-scratch key of the position reached. -/
-theorem history_key (g0 g : Game) (b0 : Board) (ms : List Move) (wf : Wf g0 b0) (hp : GoodPath g0 ms)
+/-- **T4.1, histories** After any sequence of generated moves that `make_search_move` accepts, from a consistent
+    position whose key is right and in which the side not to move is not in check, the maintained key is the
+    from-scratch key of the position reached. -/
+theorem history_key (g0 g : Game) (b0 : Board) (ms : List Move) (wf : Wf g0 b0) (nk : NoKingCapture g0) (hp : GenPath g0 ms)
     (hkey : g0.key = scratchKey g0) (hplay : playAll g0 ms = some g) : g.key = scratchKey g :=
-  (history_wf ms g0 g b0 wf hp hplay).2 hkey
+  (history_wf_root ms g0 g b0 wf nk hp hplay).2.2 hkey
 
 /-- the key update alone needs less than consistency: `MoveOk` (the squares the move touches hold what its fields
     claim) suffices, for any move word -/
